@@ -24,7 +24,11 @@ var props = map[string]propSpec{
 	}},
 	"C03": {Level: "model_checking", Harnesses: []harnessSpec{
 		{Name: "fwd", Quick: 60, Thorough: 600, Args: []string{"-prop", "C03"}},
+		{Name: "bbox", NoRewrite: true, Quick: 240, Thorough: 1800, Args: []string{"-prop", "C03"}},
+		{Name: "fwd", Quick: 90, Thorough: 900, Args: []string{"-prop", "C06", "-report", "C03", "-scn", "c06/plain"}},
 	}, Assume: []string{
+		"retried uploads (harness fwd, fault plans without lingering readers): what an acknowledged attempt carried is what the client receives, so it must be the unaltered response too",
+		"input axis (harness bbox): the real proxy and agent binaries built from the current tree, driven over loopback by a raw TCP client and a scripted raw TCP backend; framing fields (Content-Length, Transfer-Encoding) and the reason phrase are outside the comparison; entity headers may be missing on HEAD/204/304; h2c backends are not covered",
 		"handler scripts follow httputil.ReverseProxy's use of http.ResponseWriter; zero-length writes are excluded because ReverseProxy's copy loop never issues them",
 		"sequentially consistent interleavings at synchronisation operations",
 	}},
@@ -121,5 +125,12 @@ var props = map[string]propSpec{
 	}, Assume: []string{
 		"App Engine services are the in-memory fake (vae) enforcing the 1,048,572-byte entity limit, the 1 MiB memcache item limit and the 500-key multi-operation limit",
 		"sizes: request and response bodies such that the stored (serialised) blob lands on every size in a window below and at 1,000,000 and 2,000,000 bytes, plus 0, 1, 4096 and 3,000,001; concurrency: two clients of one or two backends answered in every scripted order, by the wrong agent, or not at all (504 after 30 virtual seconds); faults: every single failing service call of one request/response cycle and every pair (quick: pairs at distance <= 6)",
+	}},
+	"C02": {Level: "exploration", Harnesses: []harnessSpec{
+		{Name: "bbox", NoRewrite: true, Quick: 240, Thorough: 2400, Args: []string{"-prop", "C02"}},
+	}, Assume: []string{
+		"the real proxy and agent binaries built from the current tree, as processes on loopback; credentials from a fake metadata server; the backend is a strict raw-socket HTTP/1.1 server that records what it receives",
+		"hop-by-hop = the fixed RFC 7230 table (Connection, Keep-Alive, Proxy-Authenticate, Proxy-Authorization, TE, Trailer, Transfer-Encoding, Upgrade); fields merely nominated by the client's Connection header are not judged; OPTIONS * is answered by net/http before any handler and is not a request through the proxy",
+		"schedules are not in this property's quantifier: outcomes are schedule-independent when the property holds",
 	}},
 }
